@@ -565,7 +565,7 @@ func runC15(ctx *core.Ctx, pool *par.Pool) {
 	outcomes := map[string]int{}
 	for _, cfg := range cfgs {
 		cfg := cfg
-		ctx.Share(ctx.Budget() / time.Duration(len(cfgs)))
+		ctx.Share(ctx.FairShare(len(cfgs), 1))
 		var quiet []*xstate.Node
 		seenLog := map[string]bool{}
 		st := xstate.BFS(ctx, pool, xstate.Spec{Cfg: cfg, Alphabet: crashAlphabet(true), MaxDepth: depth,
